@@ -61,11 +61,28 @@ def _summand(v):
             and isinstance(v.args[0], (ast.ListComp, ast.GeneratorExp))):
         raise Unrecognised(f"not a plain sum: {norm(v)[:120]}")
     comp = v.args[0]
-    if len(comp.generators) != 1 or comp.generators[0].ifs or not isinstance(comp.generators[0].target, ast.Name) \
-            or norm(comp.generators[0].iter) != "self.components.values()":
+    ALL = ("self.components.values()", "list(self.components.values())")
+    if len(comp.generators) != 1 or comp.generators[0].ifs:
         raise Unrecognised(f"sum does not range over all components: {norm(comp)[:120]}")
-    i = comp.generators[0].target.id
-    t = SymEval({f"{i}.proportion": Term.sym("p"), f"{i}.component_mass": Term.sym("m")}).ev(comp.elt)
+    g = comp.generators[0]
+    env = None
+    if isinstance(g.target, ast.Name) and norm(g.iter) in ALL:
+        i = g.target.id
+        env = {f"{i}.proportion": Term.sym("p"), f"{i}.component_mass": Term.sym("m")}
+    elif isinstance(g.target, ast.Tuple) and isinstance(g.iter, ast.Call) and dotted_name(g.iter.func) == "zip" and len(g.iter.args) == len(g.target.elts) \
+            and all(isinstance(t, ast.Name) for t in g.target.elts):
+        # [f(a, b) for a, b in zip([x.A for x in ALL], [x.B for x in ALL])]: element-wise over the same components
+        env = {}
+        for t, src in zip(g.target.elts, g.iter.args):
+            if not (isinstance(src, (ast.ListComp, ast.GeneratorExp)) and len(src.generators) == 1 and not src.generators[0].ifs
+                    and isinstance(src.generators[0].target, ast.Name) and norm(src.generators[0].iter) in ALL):
+                env = None
+                break
+            j = src.generators[0].target.id
+            env[t.id] = SymEval({f"{j}.proportion": Term.sym("p"), f"{j}.component_mass": Term.sym("m")}).ev(src.elt)
+    if env is None:
+        raise Unrecognised(f"sum does not range over all components: {norm(comp)[:120]}")
+    t = SymEval(env).ev(comp.elt)
     if t.atoms() - {"p", "m"}:
         raise Unrecognised(f"summand {t.key()} has parts the abstraction does not interpret")
     return t
